@@ -1080,6 +1080,28 @@ Proof.
     match goal with HH : get_adjacent_halfface faces _ _ hfs = Ret hf2 |- _ => exact (get_adjacent_hok _ _ _ _ _ H Hne HH) end.
 Qed.
 
+Lemma upd_nth_nonempty i x l : l <> [] -> upd_nth i x l <> [].
+Proof. destruct l as [|h t]; [congruence|]. intros _. destruct i; simpl; discriminate. Qed.
+
+Lemma reorder_top_nonempty faces hfs top : forall hes idx acc r,
+  acc <> [] -> reorder_top faces hfs top hes idx acc = Ret r -> r <> [].
+Proof.
+  induction hes as [|he t IH]; intros idx acc r Hacc H; simpl in H.
+  - inversion H; subst. exact Hacc.
+  - inv_bind H. destruct (a =? -1); [eapply IH; eassumption|].
+    eapply IH; [|exact H]. apply upd_nth_nonempty. exact Hacc.
+Qed.
+
+Lemma hex_reorder_nonempty faces hfs r : hex_reorder faces hfs = Ret (Some r) -> r <> [].
+Proof.
+  unfold hex_reorder. intros H. inv_bind H. rename a into hes. inv_bind H. rename a into acc.
+  assert (Hacc : acc <> []) by (eapply reorder_top_nonempty; [|eassumption]; discriminate).
+  destruct hes as [|he0 t]; [discriminate|].
+  inv_bind H. inv_bind H. inv_bind H. inv_bind H.
+  match type of H with (if ?c then _ else _) = _ => destruct c; [discriminate|] end.
+  assert (Er : r = upd_nth 1 a2 acc) by (inversion H; reflexivity). rewrite Er. apply upd_nth_nonempty. exact Hacc.
+Qed.
+
 Lemma hf_halfedges_valence faces h hes : hf_halfedges faces h = Ret hes -> face_valence faces h = Ret (len hes).
 Proof.
   unfold hf_halfedges, face_valence. destruct (nth_z faces (Z.quot h 2)); [|discriminate].
@@ -1113,7 +1135,9 @@ Proof.
       rewrite (all_valence_true _ _ _ Hok _ Hin) in Hhes. inversion Hhes as [E]. intros ->. rewrite len_nil in E. lia. }
     destruct (hex_reorder_spec faces hfs H Hne Htop) as [N1 N2].
     apply no_ub_bind; [exact N1|]. intros r Hr. destruct r as [hfs'|]; [|nub].
-    apply base_add_cell_no_ub. apply N2. exact Hr.
+    destruct (existsb (fun x => x <? 0) hfs'); [nub|].
+    apply no_ub_bind; [apply check_halfface_ordering_no_ub; [apply N2; exact Hr|eapply hex_reorder_nonempty; exact Hr]|].
+    intros ord2 _. destruct ord2; [|nub]. apply base_add_cell_no_ub. apply N2. exact Hr.
 Qed.
 
 (* ---- inversion automation for successful runs *)
@@ -1641,6 +1665,40 @@ Proof.
     eapply base_add_cell_stored; eassumption.
 Qed.
 
+(* add_cell stores handles that designate existing halffaces whenever it is given such handles - in EVERY configuration: the
+   re-ordering path of the hexahedral class can put InvalidHalfFaceHandle into a slot, but such a list is refused (is_valid()
+   of every slot, HexahedralMeshTopologyKernel::add_cell) *)
+Lemma mesh_add_cell_valid o faces hs s : Forall (in_lim (2 * len faces)) hs ->
+  mesh_add_cell o faces hs = Ret (Some s) -> Forall (in_lim (2 * len faces)) s.
+Proof.
+  intros H. unfold mesh_add_cell. destruct (o_mesh o).
+  - intros E. apply base_add_cell_stored in E. subst. exact H.
+  - destruct (len hs =? 4); [|discriminate]. intros E. apply bind_ret_inv in E. destruct E as [ok [_ E]].
+    destruct ok; [|discriminate]. apply base_add_cell_stored in E. subst. exact H.
+  - destruct (len hs =? 6) eqn:E6; [|discriminate]. apply Z.eqb_eq in E6.
+    assert (Hne : hs <> []) by (intros ->; rewrite len_nil in E6; lia).
+    intros E. apply bind_ret_inv in E. destruct E as [ok [Hok E]]. destruct ok; cbn [negb] in E; [|discriminate].
+    destruct (o_check o); cbn [negb] in E; [|apply base_add_cell_stored in E; subst; exact H].
+    apply bind_ret_inv in E. destruct E as [ord [_ E]]. destruct ord; [apply base_add_cell_stored in E; subst; exact H|].
+    apply bind_ret_inv in E. destruct E as [r [Hr E]]. destruct r as [hfs'|]; [|discriminate].
+    destruct (existsb (fun x => x <? 0) hfs') eqn:Ev; [discriminate|].
+    apply bind_ret_inv in E. destruct E as [ord2 [_ E]]. destruct ord2; [|discriminate].
+    apply base_add_cell_stored in E. subst s.
+    assert (Hk : Forall (hok (len faces)) hs).
+    { eapply Forall_impl; [|exact H]. intros x Hx. unfold in_lim, hok in *. lia. }
+    assert (Htop : forall hes, hf_halfedges faces (nthd hs 0) = Ret hes -> hes <> []).
+    { intros hes Hhes. apply hf_halfedges_valence in Hhes.
+      assert (Hin : In (nthd hs 0) hs). { destruct hs as [|x t]; [congruence|]. left; reflexivity. }
+      rewrite (all_valence_true _ _ _ Hok _ Hin) in Hhes. inversion Hhes as [E]. intros ->. rewrite len_nil in E. lia. }
+    destruct (hex_reorder_spec faces hs Hk Hne Htop) as [_ N2]. specialize (N2 _ Hr).
+    rewrite Forall_forall in *. intros x Hx. specialize (N2 x Hx). unfold hok in N2. unfold in_lim.
+    assert (0 <= x).
+    { destruct (x <? 0) eqn:Ex; [|apply Z.ltb_ge in Ex; exact Ex].
+      assert (T : existsb (fun x => x <? 0) hfs' = true) by (apply existsb_exists; exists x; split; assumption).
+      rewrite T in Ev. discriminate. }
+    lia.
+Qed.
+
 Lemma wrap64_nonneg x : 0 <= wrap64 x.
 Proof. unfold wrap64. apply Z.mod_pos_bound. unfold two64. lia. Qed.
 
@@ -1702,10 +1760,10 @@ Qed.
 Lemma int_max_val : int_max = 2147483647. Proof. reflexivity. Qed.
 
 Lemma read_topo_chunk_inv2 o h st d st' d' :
-  bytes_ok d -> small_hdr h -> plain_cells o -> Inv2 h st ->
+  bytes_ok d -> small_hdr h -> Inv2 h st ->
   read_topo_chunk o h st d = Ret (st', d') -> Inv2 h st'.
 Proof.
-  intros Hd Hs Hp HI H. unfold read_topo_chunk in H.
+  intros Hd Hs HI H. unfold read_topo_chunk in H.
   destruct HI as [V [E [F [C [LE [LF [HE [HF HC]]]]]]]].
   destruct Hs as [S1 [S2 [S3 S4]]].
   pose proof int_max_val as IM.
@@ -1734,11 +1792,11 @@ Proof.
         eapply handles_in_lim; [| |exact Hr]; lia
     | HH : rd_items_fixed _ _ _ _ (mk_handle _ (2 * r_nfr st)) _ [] _ = Ret _ |- _ =>
         eapply (rd_items_fixed_forall (Forall (in_lim (2 * len (r_faces st))))); [|apply Forall_nil|exact HH];
-        intros ? hs ? ? s Hr Hadd; apply (mesh_add_cell_stored _ _ _ _ Hp) in Hadd; subst s;
+        intros ? hs ? ? s Hr Hadd; eapply mesh_add_cell_valid; [|exact Hadd];
         eapply handles_in_lim; [| |exact Hr]; lia
     | HH : rd_items_var _ _ (mk_handle _ (2 * r_nfr st)) _ [] _ = Ret _ |- _ =>
         eapply (rd_items_var_forall (Forall (in_lim (2 * len (r_faces st))))); [|apply Forall_nil|exact HH];
-        intros ? ? hs ? ? s Hr Hadd; apply (mesh_add_cell_stored _ _ _ _ Hp) in Hadd; subst s;
+        intros ? ? hs ? ? s Hr Hadd; eapply mesh_add_cell_valid; [|exact Hadd];
         eapply handles_in_lim; [| |exact Hr]; lia
     end ).
 Qed.
@@ -1771,10 +1829,10 @@ Lemma Inv2_fields h st st' :
 Proof. intros [A [B [C [D [E [F [G _]]]]]]]. unfold Inv2. rewrite A, B, C, D, E, F, G. auto. Qed.
 
 Lemma read_chunk_inv2 o h st eof s st' eof' s' :
-  bytes_ok (s_bytes s) -> small_hdr h -> plain_cells o -> Inv2 h st ->
+  bytes_ok (s_bytes s) -> small_hdr h -> Inv2 h st ->
   read_chunk o h st eof s = Ret (st', eof', s') -> Inv2 h st'.
 Proof.
-  intros Hok Hs Hp HI H. unfold read_chunk in H.
+  intros Hok Hs HI H. unfold read_chunk in H.
   destruct eof; [discriminate|].
   apply bind_ret_inv in H. destruct H as [[d s1] [Hm1 H]].
   apply make_decoder_inv in Hm1; [|unfold ovmb_size_ChunkHeader; lia]. destruct Hm1 as [Hb1 _].
@@ -1791,15 +1849,15 @@ Proof.
 Qed.
 
 Lemma chunk_loop_inv2 fuel : forall o h st eof s st' eof',
-  bytes_ok (s_bytes s) -> small_hdr h -> plain_cells o -> Inv2 h st ->
+  bytes_ok (s_bytes s) -> small_hdr h -> Inv2 h st ->
   chunk_loop fuel o h st eof s = Ret (st', eof') -> Inv2 h st'.
 Proof.
-  induction fuel as [|f IH]; intros o h st eof s st' eof' Hok Hs Hp HI H; simpl in H.
+  induction fuel as [|f IH]; intros o h st eof s st' eof' Hok Hs HI H; simpl in H.
   - destruct (remaining_bytes s <=? 0); [|discriminate]. inversion H; subst. exact HI.
   - destruct (remaining_bytes s <=? 0); [inversion H; subst; exact HI|].
     apply bind_ret_inv in H. destruct H as [[[st1 eof1] s1] [Hx H]].
     pose proof (read_chunk_frame _ _ _ _ _ _ _ _ Hok Hx) as Fr. cbv zeta in Fr. destruct Fr as [_ [_ [_ [F4 _]]]].
-    eapply IH; [| | | |exact H]; try assumption.
+    eapply IH; [| | |exact H]; try assumption.
     + rewrite F4. apply bytes_ok_skipn. exact Hok.
     + eapply read_chunk_inv2; eassumption.
 Qed.
@@ -1826,11 +1884,11 @@ Proof.
 Qed.
 
 (* C07_valid: success means every stored handle designates an existing entity and every property has one element per
-   entity - for entity counts below 2^30 and every configuration except the hexahedral class with the topology check on *)
+   entity - for entity counts below 2^30 and EVERY configuration (mesh class, topology check, incidences) *)
 Theorem ok_mesh_valid o bytes m :
-  bytes_ok bytes -> small_counts bytes -> plain_cells o -> decode_impl o bytes = ROk m -> mesh_valid m.
+  bytes_ok bytes -> small_counts bytes -> decode_impl o bytes = ROk m -> mesh_valid m.
 Proof.
-  intros Hok Hsm Hp H. split; [|eapply ok_props_sized; eassumption].
+  intros Hok Hsm H. split; [|eapply ok_props_sized; eassumption].
   unfold decode_impl, decode_stream in H.
   destruct (read_header _) as [[h ok] s1] eqn:Eh.
   destruct (negb (compatible o h)); [discriminate|].
